@@ -125,6 +125,50 @@ theorem stepR_heap (v : Variant) (hv : v.callCopies = true) (fuel : Nat) (h : He
   · exact flat_heap v hv fuel h _ _ _
   · rfl
 
+/-! ## the reordering loop one list-method call at a time -/
+
+def lastOr (d : List Dir) (l : List (List Dir)) : List Dir := l.getLast?.getD d
+
+theorem lastOr_cons2 (d a b : List Dir) (rest : List (List Dir)) :
+    lastOr d (a :: b :: rest) = lastOr b rest := by
+  unfold lastOr
+  rw [List.getLast?_cons_cons]
+  cases rest with
+  | nil => simp
+  | cons c cs =>
+    simp only [List.getLast?_cons_cons]
+    cases h : (c :: cs).getLast? with
+    | none => simp at h
+    | some x => rfl
+
+/-- the micro trace ends in the list the loop as a whole produces -/
+theorem reorderMicro_last : ∀ (n i : Nat) (s : Reorder),
+    lastOr s.ds (reorderMicro n i s.ds (strTruthy s.dom)) = (reorderLoop n i s).ds := by
+  intro n
+  induction n with
+  | zero => intro i s; simp [reorderMicro, reorderLoop, lastOr]
+  | succ n ih =>
+    intro i s
+    simp only [reorderMicro, reorderLoop]
+    cases hd : s.ds[i]? with
+    | none => simp [lastOr]
+    | some d =>
+      simp only []
+      cases hk : d.kind <;> simp only [] <;> try exact ih (i + 1) s
+      · rename_i dm
+        rw [lastOr_cons2]
+        have := ih (i + 1) { s with dom := some dm, ctx := s.ctx.push [(sDomain, .atom (.str dm))], ds := d :: s.ds.eraseIdx i }
+        simpa [strTruthy] using this
+      · rename_i c
+        rw [lastOr_cons2]
+        have hpos : (if strTruthy s.dom = true then 1 else 0) = (match s.dom with | some dm => if dm.isEmpty then 0 else 1 | none => 0) := by
+          cases s.dom with
+          | none => simp [strTruthy]
+          | some dm => cases h : dm.isEmpty <;> simp [strTruthy, h]
+        rw [hpos]
+        exact ih (i + 1) { s with cx := some c, ctx := s.ctx.push [(sContext, .atom (.str c))],
+                                    ds := insertAt (match s.dom with | some dm => if dm.isEmpty then 0 else 1 | none => 0) d (s.ds.eraseIdx i) }
+
 /-! ## `Translator.extract` on a copy never writes the template's heap -/
 
 theorem foldl_h {α : Type} (f : XRes → α → XRes) (h : Heap) (hf : ∀ acc a, acc.h = h → (f acc a).h = h) :
